@@ -203,8 +203,15 @@ func TestVerifC04(t *testing.T) {
 	e.event(map[string]interface{}{"ev": "config", "shard": e.shard, "config": cfg.name, "queries": len(qs), "docs": len(c.docs), "dict": len(c.dict.words)})
 
 	call := func(cs *vCase, in []byte, how int) (Results, bool) {
-		buf := append([]byte{}, in...)
-		sha := vSha(buf)
+		// the caller's array is larger than the slice handed in: bytes beyond len()
+		// belong to the caller too (e.g. buf[:n], a member of an archive)
+		backing := make([]byte, len(in)+64)
+		copy(backing, in)
+		for i := len(in); i < len(backing); i++ {
+			backing[i] = byte('P' + i%7)
+		}
+		buf := backing[:len(in)]
+		sha := vSha(backing)
 		var res Results
 		switch how % 3 {
 		case 0, 1:
@@ -217,8 +224,8 @@ func TestVerifC04(t *testing.T) {
 				return res, false
 			}
 		}
-		if vSha(buf) != sha {
-			cs.violation("input-modified", "Match/MatchFrom modified the caller's byte slice")
+		if vSha(backing) != sha {
+			cs.violation("input-modified", "Match/MatchFrom modified the caller's byte array (the slice or the bytes following it within its capacity)")
 			return res, false
 		}
 		return res, true
